@@ -249,3 +249,58 @@ UNITS.append(Unit(
     cases=[Case('every registered (or user-added) function is reached under its name in any letter case, with or without an _xlfn. prefix (finite scan of the real registry)',
                 lambda: True, lambda out: out.kind == 'ret' and out.value == [])],
     call=lambda it, fn: scan_names(), native_call=lambda fn: scan_names()))
+
+
+# ---- registration: what the user registers is what evaluators created afterwards call - also under a name that is already taken ------------
+def _register_call(native):
+    def call(it, fn):
+        import xlcalculator                                              # noqa: F401
+        from xlcalculator.xlfunctions import xl
+        from xlcalculator import evaluator, model as Mo
+        table = xl.Functions()                  # a registry of its own: the real class, the real methods, nothing global is touched
+
+        def first(x):
+            return 'first'
+
+        def second(x):
+            return 'second'
+
+        def other(x):
+            return 'other'
+        w = it
+        if native:
+            table.register(first, 'MYFUNC')
+            table.register(second, 'MYFUNC')                 # the user corrects the function and registers it again
+            table.register(other)
+        else:
+            w.call(xl.Functions.register, [table, first, 'MYFUNC'], {})
+            w.call(xl.Functions.register, [table, second, 'MYFUNC'], {})
+            w.call(xl.Functions.register, [table, other], {})
+        # the module-level decorator, pointed at this table for the duration of the call
+        real = xl.FUNCTIONS
+        xl.FUNCTIONS = table
+        try:
+            def third(x):
+                return 'third'
+            deco = xl.register('MYFUNC') if native else w.call(xl.register, ['MYFUNC'], {})
+            back = deco(third) if native else w.call(deco, [third], {})
+            ev = evaluator.Evaluator(Mo.Model()) if native else w.instantiate(evaluator.Evaluator, [Mo.Model()], {})
+        finally:
+            xl.FUNCTIONS = real
+        return dict(by_key=table['MYFUNC'].__name__, by_attr=(table.MYFUNC.__name__ if native else w.getattr(table, 'MYFUNC').__name__),
+                    other='other' in table and table['other'] is other, decorated_is_returned=back is third,
+                    evaluator_sees=ev.namespace['MYFUNC'].__name__, namespace_is_a_copy=ev.namespace is not table, names=sorted(table))
+    if native:
+        return lambda fn: call(None, fn)
+    return call
+
+
+UNITS.append(Unit(
+    id='C08/xl.Functions.register/latest_registration_wins', target='xlcalculator.xlfunctions.xl:Functions.register', inputs=[],
+    cases=[Case('a function registered under a name - also one that is already taken, by a built-in or by an earlier version of the same function - is what the '
+                'registry holds under that name and what an Evaluator created afterwards finds in its namespace; the decorator hands the function back',
+                lambda: True,
+                lambda out: out.kind == 'ret' and out.value == dict(by_key='third', by_attr='third', other=True, decorated_is_returned=True,
+                                                                   evaluator_sees='third', namespace_is_a_copy=True, names=['MYFUNC', 'other']))],
+    call=_register_call(False), native_call=_register_call(True),
+    cross_key=lambda v: repr(sorted(v.items())) if isinstance(v, dict) else repr(v)))
